@@ -6,6 +6,10 @@ RQ = {'test': 'TestVerifRQ', 'comp': 'rq', 'quick': {'VERIF_N': 150, 'VERIF_OPS'
       'thorough': {'VERIF_N': 1500, 'VERIF_OPS': 300}, 'seeds': {'quick': 1, 'thorough': 8}}
 GENF = {'test': 'TestVerifGenFuncs', 'comp': 'gen', 'quick': {'VERIF_N': 1500},
         'thorough': {'VERIF_N': 200000, 'VERIF_SNA16_ALL': 1}, 'seeds': {'quick': 1, 'thorough': 2}}
+RTO = {'test': 'TestVerifRto', 'comp': 'rto', 'quick': {'VERIF_N': 120, 'VERIF_OPS': 60},
+       'thorough': {'VERIF_N': 3000, 'VERIF_OPS': 80}, 'seeds': {'quick': 1, 'thorough': 4}, 'corpus_glob': 'rto_*.ops'}
+TIMER = {'test': 'TestVerifTimer', 'comp': 'timer', 'quick': {'VERIF_N': 200, 'VERIF_OPS': 24},
+         'thorough': {'VERIF_N': 4000, 'VERIF_OPS': 40}, 'seeds': {'quick': 1, 'thorough': 4}, 'corpus_glob': 'timer_*.ops'}
 
 
 def e2e(mode, test, nq=60, nt=1500):
@@ -36,4 +40,12 @@ PROPS = {
     'C14': {'jobs': [E2E_RS], 'rule': E2E_RULE},
     'C18': {'jobs': [E2E_API, E2E_SD], 'rule': E2E_RULE},
     'C09': {'jobs': [E2E_TD, E2E_SD, E2E_HS], 'rule': E2E_RULE},
+    'C19': {'jobs': [RTO, TIMER], 'assumptions': [
+        'float64 arithmetic of rtoManager / calculateNextTimeout is proved over Rat; the Float instance is compared with the Go code bit for bit on sampled sequences',
+        'timer automaton theorems assume fewer than 255 fired callbacks wait for the timer mutex at once (pending is a uint8; witness C19_pending_wrap_witness, known finding K19-pending-uint8)',
+        'timeout() is modelled as atomic including the observer call; in Go the observer runs just after the timer mutex is released (with a zero interval consecutive reports can overtake each other)',
+        'Go runtime timer semantics (Reset/Stop/AfterFunc) are the hand-written environment GoTimer; sampled under testing/synctest, callbacks delayed only through the harness gate',
+        'retry-budget, Karn and start-uses-manager-RTO are syntactic facts about call sites (argument / guard text), not data-flow',
+        'association level (SACK immediacy, 200 ms bound per DATA packet, heartbeat round trip) is not part of this check yet',
+    ]},
 }
